@@ -1151,6 +1151,7 @@ def install(E):
             return old
         return NotImplemented
     reg(r'^(?:std|core)::mem::(swap|replace)::<', h_mem)
+    reg(r'^(?:std|core)::mem::(?:drop|forget)::<', lambda *a: UNIT)
 
     def h_fixed_time_eq(E, m, func, argv, guard, mem, dty, caller):
         return NotImplemented
